@@ -297,7 +297,8 @@ func directedSoup(c *ctx) {
 // C11: all orders and multiplicities of href/rel/target × rel values × the 32 option sets
 func directedC11(c *ctx) {
 	hrefs := []string{"http://example.com/", "/local", "//host/x", "http:\\\\host", "mailto:a@b.c", "#f", "HTTPS://UP/", "http:/nohost", "",
-		"/%2Fexample.com/caf\u00e9", "%2F%2Fexample.com/x|y", "/%2fevil.example/a^b"}
+		"/%2Fexample.com/caf\u00e9", "%2F%2Fexample.com/x|y", "/%2fevil.example/a^b",
+		"///x", "http:///host/p", "////host", "/\t/host", " //host", "https:host", "//"}
 	rels := []string{"external\u00a0nofollow", "noopener\vnofollow noreferrer\u0085x", "", "nofollow", "noopener", "noreferrer", "nofollow noopener noreferrer", "xnofollowx", "NOFOLLOW", "author", "noopenerx", "NoOpener", "nofollow x", "a\tnofollow", "nofollow nofollow"}
 	targets := []string{"_blank", "_BLANK", "_self", "", "_blanK"}
 	els := []string{"a", "area", "link", "base", "b"}
